@@ -279,6 +279,21 @@ def general(run, h, rng, proc):
             exp = np.sqrt((p["ns"].amplitude + p["ew"].amplitude) / p["vt"].amplitude)
             if not np.allclose(d.amplitude, exp, rtol=1e-9):
                 run.violation("psd:diffuse-field", f"{key} smoothing={sm['operator']}: diffuse-field HVSR differs from sqrt((S(Pns)+S(Pew))/S(Pvt))", rep)
+            # (the three components above are one signal scaled / reversed: their ratio does not depend on the taper.)  Three INDEPENDENT
+            # components: the ratio of the densities obtained with THIS taper and THIS FFT length, also against the periodogram written out
+            ind = [[rng.normal(size=n) + 0.2 for _ in range(3)] for _ in range(W)]
+            recs_i = [h.SeismicRecording3C(ts(a_, dt), ts(b_, dt), ts(c_, dt)) for a_, b_, c_ in ind]
+            p_i, d_i = proc(recs_i, psd_settings(h, width, "samples" if pad == "samples" else 32768, smoothing=dict(sm))), proc(recs_i, h.HvsrDiffuseFieldProcessingSettings(
+                window_type_and_width=["tukey", width], smoothing=dict(sm), fft_settings={"n": None} if pad == "samples" else {"n": 32768}))
+            exp_i = np.sqrt((p_i["ns"].amplitude + p_i["ew"].amplitude) / p_i["vt"].amplitude)
+            raw = [np.mean([np.abs(np.fft.rfft(w_[c_] * taper, nfft)) ** 2 for w_ in ind], axis=0) for c_ in range(3)]      # common factors cancel in the ratio
+            fr_ = np.fft.rfftfreq(nfft, dt)
+            smooth = h.smoothing.SMOOTHING_OPERATORS[sm["operator"]]
+            sraw = smooth(fr_, np.array([raw[0] + raw[1], raw[2]]), np.asarray(sm["center_frequencies_in_hz"], dtype=float), sm["bandwidth"])
+            exp_raw = np.sqrt(sraw[0] / sraw[1])
+            if not (np.allclose(d_i.amplitude, exp_i, rtol=1e-9) and np.allclose(d_i.amplitude, exp_raw, rtol=1e-9)):
+                run.violation("psd:diffuse-field", f"{key} smoothing={sm['operator']}, independent components: diffuse-field HVSR {np.ravel(d_i.amplitude)[:3].tolist()}... differs from "
+                              f"sqrt((S(Pns)+S(Pew))/S(Pvt)) = {exp_i[:3].tolist()}... (periodograms of the windows tapered with tukey {width}: {exp_raw[:3].tolist()}...)", rep)
             # a ratio of densities: unchanged when all three components are multiplied by one factor, however small or large
             # (2^-45 ~ 3e-14: ground velocity in m/s; the densities themselves are ~1e-27)
             for kx in (-45, 40):
